@@ -193,6 +193,14 @@ func (c *Conn) Write(p []byte) (int, error) {
 	return len(p), nil
 }
 
+// SetBackpressure changes Backpressure on a live connection (1 = the peer has stopped reading altogether, provided
+// something has been written to it already).
+func (c *Conn) SetBackpressure(n int) {
+	c.mu.Lock()
+	c.Backpressure = n
+	c.mu.Unlock()
+}
+
 // SetWriteLimit arms WriteLimit relative to what has been written so far.
 func (c *Conn) SetWriteLimit(more int) {
 	c.mu.Lock()
